@@ -55,3 +55,13 @@ Lemma example_group_p :
     /\ grequired g = ["instrument"; "skymap"; "detector"; "tract"; "visit"]
     /\ gimplied g = ["band"; "day_obs"; "physical_filter"].
 Proof. eexists. split; [vm_compute; reflexivity|]. split; reflexivity. Qed.
+
+(* lookup_order is NOT total in every well-formed universe: a hand-made acyclic universe (corpus/C12/
+   deadlock_universe.yaml, regenerated into Gen) where the Python `while` loop never ends for {r, t} *)
+Lemma lookup_generic_refuted_p :
+  build raw_deadlock = Some u_deadlock /\ wf_universe u_deadlock = true /\ deps_are_dimensions u_deadlock = true
+  /\ exists g, mkgroup u_deadlock ["r"; "t"] = GOk g /\ glookup g = GOutOfFuel.
+Proof.
+  split; [vm_compute; reflexivity|]. split; [vm_compute; reflexivity|]. split; [vm_compute; reflexivity|].
+  eexists. split; [vm_compute; reflexivity|]. vm_compute. reflexivity.
+Qed.
